@@ -1,5 +1,5 @@
-(* C20 -- witnesses for the places where the code violates the property (the retention witnesses of the first version
-   are gone: repaired by 8755e5f and f977176). *)
+(* C20 -- witnesses for the places where the code violates the property (all retention witnesses are gone:
+   repaired by 8755e5f, f977176 and deef1e5). *)
 From Coq Require Import List Arith ZArith Bool NArith Lia.
 Import ListNotations.
 Require Import FV.Gen.C20 FV.C20.Model FV.C20.Lemmas FV.C20.LemmasRot.
@@ -18,19 +18,4 @@ Theorem C20_refuted_unnamed_level :
 Proof.
   exists [m0], [OLogging 0 (Some m0) (LStr s_debug)], m0, 50%Z, 0, 10%Z.
   vm_compute. repeat split; discriminate.
-Qed.
-
-(* finding C20/rollover-later-dated-file (open): the repaired doRollover keeps the max_days greatest names; a log file of the
-   handler dated later than the file being written (clock set back, copied file) takes one of these places, so with
-   max_days = 1 the file being written is removed *)
-Theorem C20_refuted_later_dated_file :
-  source_slice = SliceHead /\
-  exists prefix d date,
-    NoDup (map e_name d) /\
-    has_name (log_name prefix date) (do_rollover source_slice prefix 1 d date) = false.
-Proof.
-  split; [reflexivity|].
-  exists frappy, [dated 3; dated 9], (date_n 5).
-  split; [|vm_compute; reflexivity].
-  repeat constructor; simpl; intros H; repeat destruct H as [H|H]; try discriminate; auto.
 Qed.
